@@ -135,7 +135,7 @@ func eq(a, b []int) bool {
 }
 
 var unaryFns = []string{"PushLast", "PushHead", "PopLast", "Tail", "Map", "Mapi", "Filter", "FilterNone", "Sort", "SortBy", "Distinct", "Collect", "Observers"}
-var binaryFns = []string{"Append", "Concat", "Zip"}
+var binaryFns = []string{"Append", "Concat", "Zip", "CollectStored", "ConcatAfterEmpty", "CollectStoredAfterEmpty"}
 
 // apply runs one operation on the world; returns the result slice (nil if the
 // function returns no slice of ints), operand copies for the oracle, and ok=false
@@ -208,6 +208,13 @@ func (w *world) apply(o op) (res []int, isSlice bool, applicable bool, operands 
 		return slice.Append(a, b), true, true, operands
 	case "Concat":
 		return slice.Concat([][]int{a, b}), true, true, operands
+	case "CollectStored":
+		// the callback hands out STORED slices (a record field, identity on a slice of slices), not fresh ones
+		return slice.Collect(func(x []int) []int { return x }, [][]int{a, b}), true, true, operands
+	case "ConcatAfterEmpty":
+		return slice.Concat([][]int{nil, a, {}, b}), true, true, operands
+	case "CollectStoredAfterEmpty":
+		return slice.Collect(func(x []int) []int { return x }, [][]int{{}, a, nil, b}), true, true, operands
 	case "Zip":
 		if len(a) != len(b) {
 			return nil, false, false, nil
